@@ -588,6 +588,10 @@ func genC08(cw *caseWriter, seed uint64, tier string) {
 	}
 	emitStreamJl(cw, "C08", nil, nil, []byte("{\"a\":1}\n"+big+"\n{\"a\":2}\n"), false)
 	emitStreamJl(cw, "C08", nil, nil, []byte("{\"a\":1}\n"+big[:len(big)-1]+"\n{\"a\":2}\n"), false)
+	// the same undeliverable line, and an unreadable input, AFTER many refused lines (150: more than any round number a
+	// log limiter might use): the failure that ends the input is reported all the same
+	many := strings.Repeat("not json\n{\"a\":\n", 75)
+	emitStreamJl(cw, "C08", nil, nil, []byte(many+big+"\n{\"a\":2}\n"), false)
 }
 
 // scanner port validation at small buffer sizes
